@@ -465,7 +465,17 @@ class Function:
     @classmethod
     def create_task(cls, coro, ast_ctx=None):
         """Create a new task that runs a coroutine."""
-        return cls.hass.loop.create_task(cls.run_coro(coro, ast_ctx=ast_ctx))
+        task = cls.hass.loop.create_task(cls.run_coro(coro, ast_ctx=ast_ctx))
+
+        def task_done(task):
+            cls.our_tasks.discard(task)
+            # only has an effect when the task was cancelled before it ever ran
+            coro.close()
+
+        # the task is ours from the moment it exists, so it can be cancelled before it first runs
+        cls.our_tasks.add(task)
+        task.add_done_callback(task_done)
+        return task
 
     @classmethod
     def service_register(
